@@ -29,7 +29,7 @@ def N(xs):
 
 def r_take(xs, end, p):
     if p == 0:
-        return None   # outside the contract's domain (count >= 1); see DESIGN 9
+        return [('C',)]   # take(0) = empty: completes at once, whatever the source does
     if len(xs) >= p:
         return N(xs[:p]) + [('C',)]
     return fin(N(xs), end)
@@ -115,7 +115,7 @@ def r_last(xs, end, p):
 
 # unit -> (rust expression over `src`, parameter values, reference)
 REFS = {
-    'take': ('src.take(P)', [1, 2, 3], r_take),
+    'take': ('src.take(P)', [0, 1, 2, 3], r_take),
     'skip': ('src.skip(P)', [0, 1, 2, 3], lambda xs, end, p: fin(N(xs[p:]), end)),
     'skip_last': ('src.skip_last(P)', [0, 1, 2, 3], lambda xs, end, p: fin(N(xs[:max(0, len(xs) - p)]), end)),
     'take_last': ('src.take_last(P)', [0, 1, 2, 3], r_take_last),
@@ -224,9 +224,9 @@ def verus_witness(unit, repo, scratch):
 
 def find_witness(obl, repo, scratch):
     try:
+        if obl.extra.get('sweep'):
+            return obl.extra['sweep']
         if obl.engine == 'verus' and obl.unit:
-            if obl.extra.get('sweep'):
-                return obl.extra['sweep']
             return verus_witness(obl.unit, repo, scratch)
         if obl.engine == 'native' and obl.fn:
             # the obligation itself is a run of the harness against the real crate: its failing assertion is the witness
